@@ -2,6 +2,7 @@ package treex
 
 import (
 	"fmt"
+	"strings"
 
 	"verif/vnode"
 	"verif/vx"
@@ -128,5 +129,103 @@ func runFinalised(r *vx.Run, mode string, itemp *int) {
 				r.Sample(map[string]interface{}{"tree": sh.String(), "finalised_height": F, "fork_height": fork, "winner_branch": sh.Branch(sh.Best()), "executions": n})
 			}
 		}
+	}
+}
+
+// runSmallCache is the part of C25/C26 in which blocks fall out of the node's block caches between two
+// reorganisations: the node keeps only the 2 most recent blocks in its caches (defCacheSize=2, a legal
+// configuration; with the default of 128 the same takes trees of more than 128 blocks). Tree: a sibling A
+// of the first block of branch M, branch M of length m (m = 3..5 > cache size), a heavier branch C that forks
+// at the trunk tip. Orders: whether A arrives before M1 (M then takes over by a reorganisation) or after it
+// (M grows in line), and C parents-first or children-first; every order ends with all of C delivered.
+func runSmallCache(r *vx.Run, mode string, itemp *int) {
+	edit := func(s string) string { return strings.Replace(s, "defCacheSize=128\n", "defCacheSize=2\n", 1) }
+	env, err := NewEnvLen(edit, TrunkLen)
+	if err != nil {
+		fmt.Println("HARNESS-ERROR", err)
+		r.Note("harness error: %v", err)
+		return
+	}
+	defer env.P.Close()
+	if !strings.Contains(vnode.CfgString(edit), "defCacheSize=2\n") {
+		r.Note("small-cache part: the configuration has no defCacheSize line to edit; part skipped")
+		return
+	}
+	item := *itemp
+	defer func() { *itemp = item }()
+	ms := []int{3, 4}
+	if !r.Quick() {
+		ms = []int{3, 4, 5, 6}
+	}
+	for _, m := range ms {
+		item++
+		if !r.Mine(item) || r.Expired("small-cache trees") {
+			continue
+		}
+		// indices: 0 = A (sibling of M1), 1..m = M1..Mm, m+1.. = C1..Cc (double weight each), c = smallest with 2c > m
+		var sh Shape
+		sh.Parent = append(sh.Parent, -1)
+		sh.W = append(sh.W, 0)
+		for i := 0; i < m; i++ {
+			p := i // parent index of M(i+1): M(i) = index i; M1's parent is the trunk tip
+			if i == 0 {
+				p = -1
+			}
+			sh.Parent = append(sh.Parent, p)
+			sh.W = append(sh.W, 0)
+		}
+		c := m/2 + 1
+		for i := 0; i < c; i++ {
+			p := m + i
+			if i == 0 {
+				p = -1
+			}
+			sh.Parent = append(sh.Parent, p)
+			sh.W = append(sh.W, 1)
+		}
+		if sh.Best() != m+c {
+			r.Note("small-cache part: branch C is not the unique heaviest for m=%d; skipped", m)
+			continue
+		}
+		blocks, err := env.Build(sh)
+		if err != nil {
+			r.Note("build failed: %v", err)
+			continue
+		}
+		txs := TxHashes(blocks)
+		var cr convRef
+		if mode == "C25" {
+			cr = reference(env, r, sh, blocks, txs)
+		}
+		r.Seen("trees", fmt.Sprintf("smallcache|%s", sh))
+		var M, Cf, Cr []int
+		for i := 1; i <= m; i++ {
+			M = append(M, i)
+		}
+		for i := 0; i < c; i++ {
+			Cf = append(Cf, m+1+i)
+			Cr = append(Cr, m+c-i)
+		}
+		var orders [][]int
+		for _, cs := range [][]int{Cf, Cr} {
+			orders = append(orders, append(append([]int{0}, M...), cs...))           // A first: M1 ties and stays aside, M2 reorganises
+			orders = append(orders, append(append([]int{1, 0}, M[1:]...), cs...))    // M in line, A a side block
+			orders = append(orders, append(append(append([]int{}, M...), 0), cs...)) // A last before C
+			orders = append(orders, append(append([]int{0, 2, 1}, M[2:]...), cs...)) // M2 as an orphan before M1
+		}
+		for _, ord := range orders {
+			cse := convCase{Shape: sh, Order: ord, Kind: vnode.Broadcast, SmallCache: true}
+			r.Count("executions", 1)
+			r.Count("executions_with_small_block_cache", 1)
+			r.Count("transitions", int64(len(ord)))
+			r.Seen("states", fmt.Sprintf("smallcache|%s|%v", sh, ord))
+			if fp, what := judgeConv(env, r, mode, cse, blocks, txs, cr, true, true); fp != "" {
+				r.Violate(fp, "block caches of 2 entries: "+what, cse, func() string {
+					f, _ := judgeConv(env, r, mode, cse, blocks, txs, cr, true, false)
+					return f
+				})
+			}
+		}
+		r.Sample(map[string]interface{}{"tree": sh.String(), "block_cache_entries": 2, "winner_branch": sh.Branch(sh.Best()), "executions": len(orders)})
 	}
 }
